@@ -189,10 +189,18 @@ CLAIMED.update({
               'C05_play_total, C05_play_unpauses, C05_play_cancels_pending_pause. Transparency (same steps, outputs, result as the '
               'uninterrupted run) and status restoration are decided by the correspondence and the monitors against the '
               'uninterrupted run of the same program; they are not yet theorems.'),
-    'C06': pm('Protocol theorems for every configuration: C06_resume_accepted, C06_resume_parked, C06_later_resume_ignored, '
-              'C06_parked_not_overwritten, C06_wake_rearms, C06_retracted_pause_keeps_wakeup, with C13_wait_resume_exact for the '
-              'delivery. The history-level statement (first accepted value is what the continuation receives; never WAITING for '
-              'ever) is decided by the correspondence and the monitor over all placements of wake-ups against pause/play/kill.'),
+    'C06': pm('History level, for every program and every history in which no callback of the stepping task runs out of the model\'s '
+              'fuel (H6.histFuelOk: < 1000 synchronous steps in one callback; C06_witness_fuel_exhaustion / C06_first_resume_wins_full_is_false show the '
+              'hypothesis is needed in the model): C06_delivery (in every reachable configuration whose WAITING state holds an outcome v - in its '
+              'future or parked - and that is playing with no pause/kill request pending, ONE more callback of the stepping task '
+              'activates the continuation with exactly v\'s arguments: never WAITING for ever), C06_first_resume_wins (after an '
+              'accepted resume(v), whatever follows - later resumes, pause/play, interruptions re-arming the wait, kill, fail, '
+              'awaitable callbacks - the first activation logged is the continuation with v; until then the process still holds v, '
+              'or is RUNNING the continuation not yet activated, or terminated) and C06_no_activation_while_waiting_empty (without a '
+              'delivery nothing is activated). Invariants Coh / Deliv / Unres in PM/Proof11*.lean. Plus the protocol theorems for '
+              'every configuration: C06_resume_accepted, C06_resume_parked, C06_later_resume_ignored, C06_parked_not_overwritten, '
+              'C06_wake_rearms, C06_retracted_pause_keeps_wakeup. The workchain clause (each awaited result in the context) is C10; '
+              'no_loop_errors is decided by the correspondence and the monitor.'),
     'C10': pm('Theorem C10_barrier over whole histories (every program, every completion order and placement, pause / play / kill / '
               'fail / cancel / call_soon events in between; external resume() on the workchain excluded): the wait of the WAITING '
               'state holds or has parked a result only when nothing is awaited any more, so the next step is activated only after '
